@@ -1,4 +1,5 @@
 import JugModel.Lemmas.ExecOnce
+import JugModel.Lemmas.ExecScan
 import JugModel.Generated.StopTable
 /-!
 # C12 - a worker asked to stop exits without leaving locks or partial results
@@ -54,6 +55,28 @@ theorem interrupted_task_has_no_result (P : Prog V) (fl : Worker → Flags) (s s
     other or later worker (they quantify over arbitrary histories from a state satisfying `Inv`) -/
 theorem state_after_stop_is_regular (P : Prog V) (fl : Worker → Flags) (s₀ s : Sys V) (evs : List (Ev V)) (h₀ : Inv s₀)
     (hr : Steps P fl s₀ evs s) : Inv s := steps_inv P fl evs s₀ s h₀ hr
+
+/-- **any other or later worker runs the remaining tasks to completion**: a stopped worker leaves no lock
+    (`stop_leaves_no_lock`); from the state in which the stopped workers are gone, a failure-free execute by fresh workers
+    ends with a result for every task (the premises on the start state are exactly what stops leave behind) -/
+theorem continuation_completes (P : Prog V) (fl : Worker → Flags) (n W : Nat) (sdeps : Task → List Task)
+    (hlt : ∀ t d, d ∈ sdeps t → d < t) (s₀ s : Sys V) (evs : List (Ev V))
+    (hi : Inv s₀) (hfree : ∀ t, s₀.lock t = .free)
+    (hwk : ∀ w, s₀.wk w = .idle ∨ s₀.wk w = .crashed ∨ ∃ c, s₀.wk w = .exited c)
+    (hout : ∀ w, W ≤ w → s₀.wk w = .idle) (w₀ : Worker) (hw₀ : w₀ < W) (hidle : s₀.wk w₀ = .idle)
+    (hr : CleanSteps P fl s₀ evs s)
+    (hw : ∀ e ∈ evs, ∀ w, evWorker e = some w → w < W)
+    (hscan : scanRun n sdeps (kgOf fl) Scan.init evs = true)
+    (hq : ∀ w, w < W → (∃ c, s.wk w = .exited c) ∨ s.wk w = .crashed) :
+    ∀ t, t < n → s.res t ≠ none := by
+  have h0 := cinv_init_gen n W sdeps fl s₀ hi hfree hwk hout w₀ hw₀ hidle
+  have hc := fsteps_cinv P fl n W sdeps evs s₀ s Scan.init h0 (fsteps_of_cleanSteps P fl evs s₀ s hr) hw hscan
+  intro t ht
+  rcases complete_of_cinv n W sdeps fl hlt s _ hc hq t ht with h | h
+  · exact h
+  · have hf := scanFold_failedT_clean (V := V) sdeps (kgOf fl) evs Scan.init (cleanSteps_all_clean P fl evs s₀ s hr)
+    rw [hf] at h
+    exact absurd h (not_blocked_of_none sdeps t)
 
 /-- bridge (regenerated from jug/hooks/exit_checks.py and jug/subcommands/execute.py on every run): every exit condition
     (stop file, predicate, task-count limit, time limit) is raised from one of the two hooks that run *inside* the worker's
